@@ -70,7 +70,7 @@ class ExprGen:
             return ("leaf", i, 1 if (allow_throw and r.random() < 0.08) else 0), True
         if k == "mem":
             kinds = [r.choice("vc") if c else r.choice("vrc") for _, c in types]
-            return ("mem", r.randrange(K), kinds, 1 if r.random() < 0.35 else 0), True
+            return ("mem", r.randrange(K), kinds, 1 if r.random() < 0.35 else 0, 1 if r.random() < 0.3 else 0), True
         if k in ("bind", "bindn"):
             nb = r.choice([1, 1, 2, 2, 3])
             bounds, btypes = [], []
@@ -213,9 +213,10 @@ def to_cpp(t):
     if k == "leafref":
         return "LeafRef{%d}" % t[1]
     if k == "mem":
+        cst = "c" if (len(t) > 4 and t[4]) else ""      # a const member function (other mem_fun overload)
         if len(t) > 3 and t[3]:      # a method inherited from the non-trackable base NB
-            return "sigc::mem_fun(*g_tr[%d], &NB::n%d%s)" % (t[1], len(t[2]), "".join(t[2]))
-        return "sigc::mem_fun(*g_tr[%d], &Tr::m%d%s)" % (t[1], len(t[2]), "".join(t[2]))
+            return "sigc::mem_fun(*g_tr[%d], &NB::%sn%d%s)" % (t[1], cst, len(t[2]), "".join(t[2]))
+        return "sigc::mem_fun(*g_tr[%d], &Tr::%sm%d%s)" % (t[1], cst, len(t[2]), "".join(t[2]))
     if k == "bind":
         bs = []
         for kind, v in t[3]:
